@@ -35,7 +35,8 @@ RULE = ("one evaluation = one generated config pushed through all validator entr
         "single-mutation / valid-random configs); non-trivial = the config was rejected with >= 1 message or accepted and executed")
 
 NAN, INF = float("nan"), float("inf")
-JUNK = [None, True, False, "x", "", "12", "1.5", "nan", [], [1], {}, {"a": 1}, NAN, INF, -INF, -1, 0, 1, 10 ** 12, -10 ** 12, 1e-9, 0.5, 1.5, -0.5, (1, 2)]
+JUNK = [None, True, False, "x", "", "12", "1.5", "nan", [], [1], {}, {"a": 1}, NAN, INF, -INF, -1, 0, 1, 10 ** 12, -10 ** 12, 1e-9, 0.5, 1.5, -0.5, (1, 2),
+        [[]], [{}], ["t2:semantic", []], [None], ["x", {"a": 1}], {"a": []}, [[1, 2]], [NAN], ["t2:semantic", "t2:semantic"], [True], [0]]
 
 
 def template():
